@@ -33,7 +33,7 @@ package rangecache
 //@ spec func remote(rc *RangeCache, k int) byte
 
 // cacheInv: every cached entry is a valid range of the file, has exactly the range's length and holds the remote bytes.
-//@ spec func cacheInv(rc *RangeCache) bool = (forall r Range :: has(rc.cache, r) ==> r[0] >= 0 && r[0] <= r[1] && r[1] <= rc.size && len(rc.cache[r].Value) == int(r[1]) - int(r[0])) && (forall r Range, k int :: has(rc.cache, r) && int(r[0]) <= k && k < int(r[1]) ==> rc.cache[r].Value[k-int(r[0])] == remote(rc, k))
+//@ spec func cacheInv(rc *RangeCache) bool = (forall r Range :: has(rc.cache, r) ==> r[0] >= 0 && r[0] <= r[1] && r[1] <= rc.size && len(rc.cache[r].Value) == int(r[1]) - int(r[0]) && allocated(rc.cache[r].Value)) && (forall r Range, k int :: has(rc.cache, r) && int(r[0]) <= k && k < int(r[1]) ==> rc.cache[r].Value[k-int(r[0])] == remote(rc, k))
 
 // getRangeFromCache: a hit returns a fresh copy (never a slice aliasing the cache) holding exactly remote[start:end].
 // Nothing is modified (LastRead is not refreshed by a hit).
@@ -78,26 +78,28 @@ package rangecache
 // about its results, so nothing can be promised about a successful result on the miss path.
 //@ func (*RangeCache) getRange
 //@   mode int
+//@   inline
 //@   requires ctx != nil && miss != nil && held(rc.mu) == 0 && cacheInv(rc)
 //@   modifies all
 //@   ensures held(rc.mu) == 0
 //@   ensures start < 0 || end > old(rc.size) || start > end ==> result1 != nil && result0 == nil
 
-// GetRange: the `miss` closure (remoteFetcher call, clone, setRange) is a function literal: vcgo does not execute its
-// body and getRange's contract cannot speak about what `miss` returns. Hence of the C17 statement only the refusal of
-// bad ranges (including start+ln wrap-around), the lock discipline and the length of the result are dischargeable;
-// `fresh(result0)` is stated but fails (engine limitation), and the content clause
-//   result1 == nil ==> forall j :: 0 <= j && j < len(result0) ==> result0[j] == remote(rc, int(start)+j)
-// additionally needs a contract for the func-typed field rc.remoteFetcher, which cannot be written.
+// GetRange: getRange is executed inline (directive `inline` above), so the `miss` closure literal runs at its call site.
+// The func-typed field rc.remoteFetcher is given the ASSUMED contract of DESIGN §C17 (trusted boundary: whoever supplies
+// the fetcher must satisfy it): it writes only into its buffer and on success the buffer holds the remote bytes.
 //@ func (*RangeCache) GetRange
 //@   mode int
-//@   requires ctx != nil && held(rc.mu) == 0 && cacheInv(rc)
+//@   requires ctx != nil && held(rc.mu) == 0 && rc.cache != nil && rc.remoteFetcher != nil && cacheInv(rc)
 //@   modifies all
+//@   fncall rc.remoteFetcher modifies p
+//@   fncall rc.remoteFetcher ensures err == nil ==> forall j int :: 0 <= j && j < len(p) ==> p[j] == remote(rc, int(off)+j)
 //@   ensures held(rc.mu) == 0
 //@   ensures int(start) < 0 || int(ln) < 0 || int(start) + int(ln) > int(old(rc.size)) ==> result1 != nil && result0 == nil
 //@   ensures result1 != nil ==> result0 == nil
 //@   ensures result1 == nil ==> len(result0) == int(ln)
 //@   ensures result1 == nil ==> fresh(result0)
+//@   ensures result1 == nil ==> forall j int :: 0 <= j && j < len(result0) ==> result0[j] == remote(rc, int(start)+j)
+//@   ensures cacheInv(rc)
 
 // ---- not in the C17 core, contracted so that the package sweep is clean and the invariant is closed under every method ----
 
